@@ -149,7 +149,7 @@ struct Lite {
     alphabet: std::sync::Arc<Vec<Vec<f64>>>,
     xi: Vec<u8>, // row i = alphabet[xi[i]]
     y: Vec<u8>,
-    weights: u8, // 0 none, 1 alternating 1,2,1,2.., 2 all 0.5
+    weights: u8, // 0 none, 1 alternating 1,2,1,2.., 2 all 0.5, 3 cycling 501,499,499,501
     grid: u8,    // 0 full, 1 small
     hash_seed: u64,
 }
@@ -158,11 +158,22 @@ fn grid(kind: u8, weights: u8) -> Vec<Config> {
     let crits = ["gini", "entropy"];
     let (depths, mws, mids): (Vec<Option<usize>>, Vec<f32>, Vec<f64>) = if kind == 0 {
         (vec![None, Some(0), Some(1), Some(2)], vec![1.0, 2.0, 2.5, 3.0, 3.5], vec![1e-5, 0.1, 0.3])
+    } else if kind >= 2 {
+        // weak-split grid: min_impurity_decrease far below the default 1e-5 (f32 parameters must be
+        // >= f32::EPSILON, hence 2e-7 there), so that splits with a decrease of ~2e-6 are accepted
+        (vec![None, Some(1), Some(2)], vec![1.0, 2.0, 2.5], vec![if kind == 2 { 1e-9 } else { 2e-7 }, 1e-5, 0.1])
     } else {
         (vec![None, Some(1), Some(2)], vec![1.0, 2.0, 2.5], vec![1e-5, 0.1])
     };
     // with all weights 0.5 a leaf weight of 2 needs 4 rows per side: use {0.5, 1} there
-    let mwl: Vec<f32> = if weights == 2 { vec![0.5, 1.0] } else { vec![1.0, 2.0] };
+    // with weights around 500 per row: 1 = always met, 600 = two rows per side, 1001 = three
+    let mwl: Vec<f32> = if weights == 2 {
+        vec![0.5, 1.0]
+    } else if weights == 3 {
+        vec![1.0, 600.0, 1001.0]
+    } else {
+        vec![1.0, 2.0]
+    };
     let mut out = Vec::new();
     for c in crits {
         for &dp in &depths {
@@ -183,7 +194,9 @@ fn expand(l: &Lite, with_configs: bool) -> Case {
     let weights = match l.weights {
         0 => None,
         1 => Some((0..n).map(|i| 1.0 + (i % 2) as f32).collect()),
-        _ => Some(vec![0.5; n]),
+        2 => Some(vec![0.5; n]),
+        // nearly balanced heavy weights: nodes like 501:499 against 499:501 (Gini decrease ~2e-6)
+        _ => Some((0..n).map(|i| [501.0f32, 499.0, 499.0, 501.0][i % 4]).collect()),
     };
     Case {
         family: l.family.into(),
@@ -236,6 +249,12 @@ struct Stats {
     split_nodes_weight_below_min_weight_split_but_count_ok: u64,
     trees_without_split_importance_undefined: u64,
     max_decrease_err: f64,
+    #[serde(default)]
+    max_decrease_err_units: f64,
+    #[serde(default)]
+    split_nodes_with_decrease_below_1e_5: u64,
+    #[serde(default)]
+    trees_with_split_and_total_decrease_below_1e_5: u64,
     distinct_class_counts: [u64; 7],
     violating_evals: u64,
     violations_not_stored: u64,
@@ -257,6 +276,9 @@ impl Stats {
         self.split_nodes_weight_below_min_weight_split_but_count_ok += o.split_nodes_weight_below_min_weight_split_but_count_ok;
         self.trees_without_split_importance_undefined += o.trees_without_split_importance_undefined;
         self.max_decrease_err = self.max_decrease_err.max(o.max_decrease_err);
+        self.max_decrease_err_units = self.max_decrease_err_units.max(o.max_decrease_err_units);
+        self.split_nodes_with_decrease_below_1e_5 += o.split_nodes_with_decrease_below_1e_5;
+        self.trees_with_split_and_total_decrease_below_1e_5 += o.trees_with_split_and_total_decrease_below_1e_5;
         for i in 0..7 {
             self.distinct_class_counts[i] += o.distinct_class_counts[i];
         }
@@ -273,7 +295,16 @@ impl Stats {
 
 /// |reported impurity decrease - decrease recomputed in f64|: the subject computes impurities in
 /// f32 whatever the feature type (sums of <= 6 squared fractions / p*log2 p terms).
-const TOL_DEC: f64 = 5e-6;
+/// The tolerance scales with the magnitude the f32 arithmetic works at: TOL_UNITS ulps (f32 epsilon)
+/// of max(parent impurity, 0.5). For a Gini node near 0.5 that is ~5e-7, so a genuine decrease of
+/// 2e-6 (class weights 501:499 against 499:501) is still resolved; the largest error measured over
+/// the whole thorough sweep is reported in the evidence (in the same units).
+const TOL_UNITS: f64 = 8.0;
+const EPS32: f64 = 1.1920929e-7;
+
+fn tol_dec(parent_impurity: f64) -> f64 {
+    TOL_UNITS * EPS32 * parent_impurity.max(0.5)
+}
 
 fn impurity(crit: &str, freq: &[f64]) -> f64 {
     let tot: f64 = freq.iter().sum();
@@ -673,8 +704,10 @@ fn check_one<F: Float, L: Label + Default + std::fmt::Debug>(
             if !l.is_empty() && !r.is_empty() {
                 let actual = data.decrease(&cfg.criterion, rows, &l, &r);
                 let err = (reported - actual).abs();
-                if !(err <= TOL_DEC) {
-                    let strict_match = on_value && !ls.is_empty() && !rs.is_empty() && (reported - data.decrease(&cfg.criterion, rows, &ls, &rs)).abs() <= TOL_DEC;
+                let parent_imp = impurity(&cfg.criterion, &data.freq(rows));
+                let tol = tol_dec(parent_imp);
+                if !(err <= tol) {
+                    let strict_match = on_value && !ls.is_empty() && !rs.is_empty() && (reported - data.decrease(&cfg.criterion, rows, &ls, &rs)).abs() <= tol;
                     let sig = if strict_match { "split.threshold_on_data_value.decrease_is_that_of_strict_partition" } else { "split.impurity_decrease_misreported" };
                     report(
                         sig,
@@ -694,7 +727,11 @@ fn check_one<F: Float, L: Label + Default + std::fmt::Debug>(
                     );
                 } else {
                     st.max_decrease_err = st.max_decrease_err.max(err);
-                    if (actual - min_dec).abs() <= TOL_DEC {
+                    st.max_decrease_err_units = st.max_decrease_err_units.max(err / (EPS32 * parent_imp.max(0.5)));
+                    if actual < 1e-5 {
+                        st.split_nodes_with_decrease_below_1e_5 += 1;
+                    }
+                    if (actual - min_dec).abs() <= tol {
                         st.indeterminate += 1;
                     } else if actual < min_dec {
                         report(
@@ -742,7 +779,7 @@ fn check_one<F: Float, L: Label + Default + std::fmt::Debug>(
     }
     let mid = tree.mean_impurity_decrease();
     let want_mid: Vec<f64> = (0..d).map(|j| if dec_cnt[j] == 0 { 0.0 } else { dec_sum[j] / dec_cnt[j] as f64 }).collect();
-    if mid.len() != d || mid.iter().zip(&want_mid).any(|(a, b)| !((to64(*a) - b).abs() <= 5e-6)) {
+    if mid.len() != d || mid.iter().zip(&want_mid).any(|(a, b)| !((to64(*a) - b).abs() <= 1e-6 * b.abs() + 1e-12)) {
         report(
             "importance.mean_impurity_decrease_mismatch",
             format!("mean_impurity_decrease() = {:?}, the per-feature mean of the split nodes' reported decreases is {:?}", mid.iter().map(|v| to64(*v)).collect::<Vec<_>>(), want_mid),
@@ -751,6 +788,9 @@ fn check_one<F: Float, L: Label + Default + std::fmt::Debug>(
     }
 
     // ---------------- feature importance ----------------
+    if has_split && want_mid.iter().sum::<f64>() < 1e-5 {
+        st.trees_with_split_and_total_decrease_below_1e_5 += 1;
+    }
     if has_split {
         let imp: Vec<f64> = tree.feature_importance().iter().map(|v| to64(*v)).collect();
         let tol = if case.float == "f32" { 1e-5 } else { 1e-9 };
@@ -1251,6 +1291,13 @@ fn enumerate_cases(ctx: &Ctx) -> Vec<Lite> {
             vars.push(v("f64", "bool", 1, 0, 0));
             vars.push(v("f32", "string", 2, 0, 0));
         }
+        if n <= ctx.pick(4, 5) {
+            // nearly balanced heavy weights x tiny min_impurity_decrease (weak splits)
+            vars.push(v("f64", "usize", 3, 2, 0));
+            if n <= 4 {
+                vars.push(v("f32", "string", 3, 3, 0));
+            }
+        }
         if ctx.thorough() && n <= 4 {
             // further hash-seed streams for the tie-heavy small datasets
             vars.push(v("f64", "usize", 0, 0, 1));
@@ -1281,6 +1328,9 @@ fn enumerate_cases(ctx: &Ctx) -> Vec<Lite> {
         vars.push(v("f64", "usize", 1, if n <= 4 { 0 } else { 1 }, 0));
         if n <= 4 && (n <= 3 || ctx.thorough()) {
             vars.push(v("f32", "string", 2, 0, 0));
+        }
+        if n <= 4 {
+            vars.push(v("f64", "usize", 3, 2, 0));
         }
         push_family(&mut out, "2f_lattice2x2", &alpha_b, &sets, &vars);
     }
@@ -1344,16 +1394,16 @@ fn main() {
          datasets: ALL value sequences of n rows over the family's alphabet x ALL labelings up to renaming of the classes (restricted growth strings, <= 6 classes; \
          includes duplicates with conflicting labels, constant features, single-class sets): 1 feature over {0,1,2} (n <= 5 quick / 6 thorough; quick adds n = 6 with >= 5 classes on the small grid), 1 feature over {0,1,2,3} (n <= 4 / 5), \
          2 features over {0,1}^2 (n <= 4 / 5), 2 features over {0,1,2}^2 (n <= 3 / 4), adjacency families = 4 consecutive floats at 2^24 and 256 (f32), 2^53 and 2^40 (f64) (n <= 3 / 4, <= 3 classes; fit can overflow the stack there), \
-         near-equal family {0, 8e-6, 1.6e-5, 2.6e-5, 1} (n <= 4 / 5); label types usize / bool / String; weights none / 1,2,1,2.. / all 0.5; \
+         near-equal family {0, 8e-6, 1.6e-5, 2.6e-5, 1} (n <= 4 / 5); label types usize / bool / String; weights none / 1,2,1,2.. / all 0.5 / cycling 501,499,499,501 (nearly balanced nodes, run on the weak-split grid = 2 x {None,1,2} x {1,2,2.5} x min_weight_leaf {1,600,1001} x min_impurity_decrease {1e-9 (f64) or 2e-7 (f32), 1e-5, 0.1} (162) on 1 feature over {0,1,2} with n <= 4 / 5 and {0,1}^2 with n <= 4); \
          full grid = {gini, entropy} x max_depth {None,0,1,2} x min_weight_split {1,2,2.5,3,3.5} (non-integer values: a node reached by floor(v) rows must not be split) x min_weight_leaf {1,2} ({0.5,1} with weights 0.5) x min_impurity_decrease {1e-5,0.1,0.3} (240), \
          small grid (adjacency / near-equal) = 2 x {None,1,2} x {1,2,2.5} x {1,2} x {1e-5,0.1} (72). \
          evaluation = one fit + full verification of the tree; non-trivial = the fitted tree has at least one split node. Distinct by construction of the enumerators.",
     );
     ctx.assume("oracle routes training rows with the documented rule `feature <= split value` -> left (rustdoc of DecisionTree, and the rule TreeNode::fit applies to build its masks)");
-    ctx.assume("reported impurity decrease vs decrease recomputed in f64 from the definition: absolute tolerance 5e-6 (the subject computes impurities in f32; absorbs hash-map summation order); actual decreases within 5e-6 of min_impurity_decrease are counted indeterminate");
-    ctx.assume("all sample weights are dyadic (1, 2, 0.5) so class weights are exact in f32 and f64: a leaf must predict ANY label whose weight equals the maximum exactly (ties accepted, whatever the hash order picks)");
+    ctx.assume("reported impurity decrease vs decrease recomputed in f64 from the definition: tolerance = 8 f32 ulps (8 x 1.19e-7) of max(parent impurity, 0.5), i.e. ~4.8e-7 for a Gini node near 0.5 (the subject computes impurities in f32; absorbs summation order; the largest error seen is in the evidence); actual decreases within that tolerance of min_impurity_decrease are counted indeterminate");
+    ctx.assume("all sample weights are dyadic (1, 2, 0.5) or small integers (499, 501) so class weights are exact in f32 and f64: a leaf must predict ANY label whose weight equals the maximum exactly (ties accepted, whatever the hash order picks)");
     ctx.assume("min_weight_split is checked against the NUMBER of rows reaching the node (as the property states and the code does); nodes whose total WEIGHT is below it are only counted (parameter doc speaks of weight)");
-    ctx.assume("feature importances: >= 0, finite, sum to 1 within 1e-9 (f64) / 1e-5 (f32), only demanded when the tree has a split; mean_impurity_decrease vs own mean of reported decreases within 5e-6");
+    ctx.assume("feature importances: >= 0, finite, sum to 1 within 1e-9 (f64) / 1e-5 (f32), only demanded when the tree has a split; mean_impurity_decrease vs own mean of reported decreases within relative 1e-6");
     ctx.assume("hash-map order is a controlled input: in-binary getrandom override + one fresh thread per case keyed by the case's hash_seed (self-tested at start-up); VERIF_SEED plays no role");
     ctx.assume("the subject runs in worker processes (one per harness thread): TreeNode::fit can recurse without end and the resulting stack overflow aborts the process; a worker killed by a signal = violation of the configuration it was running (named by its SIGABRT handler), the case is then re-run without that configuration; before an unbounded fit the same configuration is fitted with max_depth = n + 1 and a tree deeper than n - 1 is reported instead of running the unbounded fit");
     ctx.assume("empty datasets, non-finite values, zero / negative weights and min_weight_leaf <= 0 are outside the enumerated domain");
@@ -1385,7 +1435,7 @@ fn main() {
         totals.lock().unwrap().merge(&st);
         *fam_nontrivial.lock().unwrap().entry(l.family).or_default() += st.nontrivial;
         done.fetch_add(1, std::sync::atomic::Ordering::Relaxed);
-        ctx.sample(|| json!({"family": case.family, "float": case.float, "label_type": case.label_type, "x": case.x, "y": case.y, "weights": case.weights, "hash_seed": case.hash_seed, "grid": if l.grid == 0 { "full (240 configurations)" } else { "small (72 configurations)" }}));
+        ctx.sample(|| json!({"family": case.family, "float": case.float, "label_type": case.label_type, "x": case.x, "y": case.y, "weights": case.weights, "hash_seed": case.hash_seed, "grid": match l.grid { 0 => "full (240 configurations)", 1 => "small (72 configurations)", _ => "weak-split (162 configurations, min_impurity_decrease down to 1e-9 / 2e-7)" }}));
     });
     let t = totals.lock().unwrap().clone();
     let done = done.load(std::sync::atomic::Ordering::Relaxed);
@@ -1403,6 +1453,9 @@ fn main() {
     ctx.extra("split_nodes_with_weight_below_min_weight_split_but_row_count_ok", json!(t.split_nodes_weight_below_min_weight_split_but_count_ok));
     ctx.extra("trees_without_split_importance_not_demanded", json!(t.trees_without_split_importance_undefined));
     ctx.extra("max_abs_error_of_reported_impurity_decrease", json!(t.max_decrease_err));
+    ctx.extra("max_error_of_reported_impurity_decrease_in_f32_ulps_of_parent_impurity", json!(t.max_decrease_err_units));
+    ctx.extra("split_nodes_with_actual_decrease_below_1e-5", json!(t.split_nodes_with_decrease_below_1e_5));
+    ctx.extra("trees_with_a_split_whose_mean_decreases_sum_below_1e-5", json!(t.trees_with_split_and_total_decrease_below_1e_5));
     ctx.extra("evaluations_with_a_violation", json!(t.violating_evals));
     ctx.extra("violations_counted_but_not_stored_beyond_2_per_signature_and_case", json!(t.violations_not_stored));
     ctx.extra("worker_processes_started", json!(t.child_processes));
